@@ -54,8 +54,9 @@ SELFTEST = [
     {"mutation": "on_swarm_event ConnectionEstablished: Listener arm inserts into established_outbound_connections",
      "caught_by": "established/Listener: inserted into established_inbound_connections"},
     {"mutation": "handle_pending_inbound_connection: insert removed", "caught_by": "pending/handle_pending_inbound_connection: admitted id recorded once"},
-    {"mutation": "on_swarm_event DialFailure: removes from pending_inbound_connections instead", "caught_by": "who/mutators of the five sets + release/DialFailure"},
+    {"mutation": "on_swarm_event DialFailure: removes from pending_inbound_connections instead", "caught_by": "release/DialFailure: removed from pending_outbound_connections on every path + who/removal from pending_inbound_connections only in ListenFailure"},
     {"mutation": "is_bypassed returns !contains", "caught_by": "bypass/is_bypassed = bypass_peer_id.contains(peer)"},
+    {"mutation": "on_swarm_event catch-all arm clears established_inbound_connections", "caught_by": "who/mutators of the five sets"},
 ]
 
 
